@@ -43,7 +43,7 @@ pub fn run(ctx: &Ctx) -> (Report, Meta) {
     .floor("not_enabled_probes", 100);
 
     // ---------------- (a) low level ----------------
-    let nlow = ctx.size(20_000, 1_000_000);
+    let nlow = ctx.size(80_000, 1_000_000);
     let g = GenOpts { allow_max_step: true, bidirectional_problems: true, ..Default::default() };
     let rep = par_for(nlow, "C06", |i, rep| {
         let case_id = format!("low/{}", i);
@@ -174,7 +174,7 @@ pub fn run(ctx: &Ctx) -> (Report, Meta) {
     });
 
     // ---------------- (b) solve_ivp ----------------
-    let nhi = ctx.size(20_000, 1_000_000);
+    let nhi = ctx.size(80_000, 1_000_000);
     let g2 = GenOpts {
         allow_max_step: true,
         allow_max_steps: true,
